@@ -36,6 +36,12 @@ def check(res):
         res.violation("oracle:leak", "memory allocated on behalf of a Lexicon is still allocated after the units, modules and the Lexicon were destroyed",
                       {"iterations_leaking": leaking[:3], "allocation_sites": ["%s (%s:%s)" % s for s in sites[:6]],
                        "lsan": p.stderr[-3000:], "rerun": "ASAN_OPTIONS=detect_leaks=1 build/<hash>/asan/c19_driver %d %d" % (n, res.seed)})
+    # a word whose length does not fit an int (2^31 + 8 bytes): what the arena reserves for it and where the copy goes
+    import c03
+    kk = set()
+    n0 = len(res.violations)
+    c03.huge_words(res, build_driver("c03_driver", "asan"), kk, "oracle:content:")
+    keys = keys or bool(kk)
     if not all(status.values()) and not keys:
         st = f["stores"]["dtors"]
         res.violation("coq:Properties_C19.v", "obligation over the destructor facts of the current source no longer checks",
